@@ -244,14 +244,15 @@ func (r *RibEntry) CleanUpFace(faceId uint64) {
 		return
 	}
 
-	for i, route := range r.routes {
+	// Remove every route of the face (there may be several, with different origins)
+	for i := 0; i < len(r.routes); {
+		route := r.routes[i]
 		if route.FaceID == faceId {
-			if i < len(r.routes)-1 {
-				copy(r.routes[i:], r.routes[i+1:])
-			}
+			copy(r.routes[i:], r.routes[i+1:])
 			r.routes = r.routes[:len(r.routes)-1]
 			readvertiseWithdraw(r.Name, route)
-			break
+		} else {
+			i++
 		}
 	}
 	r.updateNexthopsEnc()
